@@ -82,13 +82,28 @@ INC_MSGS = """<sbe:message xmlns:sbe="http://fixprotocol.io/2016/sbe" name="canc
 """
 
 
+DET_ONLY = set()
+
+
 def inputs():
     """tiny, the view catalogue schema, and one that pulls types and a message
     in through xi:include (sbeppc resolves href against the cwd)."""
     tiny = {"package": "tiny", "id": 1, "version": 0, "byteOrder": "littleEndian",
             "types": [catalogue.header()], "messages": [catalogue.G("m", 1, fields=[catalogue.F("x", 1, "uint32")])]}
     vle = catalogue.view_schemas()[0]
-    return [sr.Input("tiny", {"tiny.xml": sch.to_xml(tiny)}, "tiny.xml"),
+    # a composite that refers to many public types, enums used by many fields: whatever order the generator
+    # keeps its dependency / include lists in must not depend on where the schema file lives (determinism only)
+    nref = 24
+    many_types = [catalogue.header()] + [catalogue.T("t%02d" % i, ("uint8", "int16", "uint32", "int64", "char", "double")[i % 6]) for i in range(nref)]
+    many_types += [{"kind": "enum", "name": "e%02d" % i, "enc": "uint8", "values": [{"name": "A", "value": str(i)}]} for i in range(8)]
+    many_types.append({"kind": "composite", "name": "wide", "elements": [{"kind": "ref", "name": "r%02d" % i, "type": "t%02d" % i} for i in range(nref)]})
+    many = {"package": "manyrefs", "id": 5, "version": 0, "byteOrder": "littleEndian", "types": many_types,
+            "messages": [catalogue.G("m", 1, fields=[catalogue.F("w", 1, "wide")] + [catalogue.F("f%02d" % i, 10 + i, "t%02d" % i) for i in range(nref)]
+                                     + [catalogue.F("g%02d" % i, 50 + i, "e%02d" % i) for i in range(8)])]}
+    global DET_ONLY
+    DET_ONLY = {"manyrefs"}
+    return [sr.Input("manyrefs", {"manyrefs.xml": sch.to_xml(many)}, "manyrefs.xml"),
+            sr.Input("tiny", {"tiny.xml": sch.to_xml(tiny)}, "tiny.xml"),
             sr.Input(vle["package"], {vle["package"] + ".xml": sch.to_xml(vle)}, vle["package"] + ".xml"),
             sr.Input("inc", {"inc.xml": INC_MAIN, "inc_types.xml": INC_TYPES, "inc_msgs.xml": INC_MSGS}, "inc.xml", cwd_free=False)]
 
@@ -307,6 +322,8 @@ def run(v, tier, seed):
     # ---- 4. fault enumeration ---------------------------------------------------
     fjobs = []
     for inp in ins:
+        if inp.name in DET_ONLY:
+            continue
         for n, (fault, init) in enumerate(fault_jobs(refs[inp.name], stale_ops.get(inp.name, []), tier, rnd)):
             fjobs.append((inp, "f-%s-%s-%d-%s-%s" % (inp.name, fault[0], fault[1], fault[2], init), {"fault": fault, "init": init}))
     fruns = vlib.parallel(fjobs, do)
